@@ -80,6 +80,7 @@ fn ph(s: &str) -> Ph {
 enum Reply {
     Fill(Vec<u8>),
     Fail(Vec<u8>),
+    FailCode(u32, Vec<u8>),
 }
 struct ScriptRng {
     script: VecDeque<Reply>,
@@ -89,6 +90,13 @@ impl ScriptRng {
         let mut q = VecDeque::new();
         if s != "-" {
             for t in s.split(',') {
+                if t.as_bytes()[0] == b'e' {
+                    // e<code>:<hex> - fail with the given (operating-system style) error code after writing the bytes
+                    let (c, body) = t[1..].split_once(':').expect("harness: e<code>:<hex>");
+                    let b = if body.is_empty() { vec![] } else { hex(body) };
+                    q.push_back(Reply::FailCode(c.parse::<u32>().expect("harness: error code"), b));
+                    continue;
+                }
                 let body = &t[1..];
                 let b = if body.is_empty() { vec![] } else { hex(body) };
                 q.push_back(if t.as_bytes()[0] == b'f' { Reply::Fill(b) } else { Reply::Fail(b) });
@@ -117,11 +125,38 @@ impl RngCore for ScriptRng {
                 dest[..n].copy_from_slice(&b[..n]);
                 Err(rng_err())
             }
+            Some(Reply::FailCode(code, b)) => {
+                let n = b.len().min(dest.len());
+                dest[..n].copy_from_slice(&b[..n]);
+                Err(rand_core::Error::from(core::num::NonZeroU32::new(code).expect("harness: non-zero code")))
+            }
             None => Err(rng_err()),
         }
     }
 }
 impl CryptoRng for ScriptRng {}
+
+/// C16: largest number of sampled 8-byte words (every 128 bytes, non-zero only) of `image` found again at one aligned
+/// position of the stack range [here, hi) - the caller's frames after a key was consumed by value.
+#[inline(never)]
+fn best_residue(image: &[u8], hi: usize) -> usize {
+    let marker = 0u64;
+    let lo = (core::ptr::addr_of!(marker) as usize + 7) & !7;
+    let len = image.len();
+    let samples: Vec<(usize, u64)> = (0..len / 8)
+        .step_by(16)
+        .map(|w| (w * 8, u64::from_ne_bytes(image[w * 8..w * 8 + 8].try_into().unwrap())))
+        .filter(|&(_, v)| v != 0)
+        .collect();
+    let mut best = 0;
+    let mut a = lo;
+    while a + len <= hi {
+        let hits = samples.iter().filter(|&&(off, v)| unsafe { core::ptr::read_volatile((a + off) as *const u64) } == v).count();
+        best = best.max(hits);
+        a += 8;
+    }
+    best
+}
 
 fn okerr<T>(r: Result<T, &'static str>, f: impl FnOnce(T) -> String) -> String {
     match r {
@@ -389,6 +424,80 @@ macro_rules! set_mod {
                     "os_kg_keygen" => {
                         let r = api::KG::try_keygen();
                         okerr(r, |(pk, sk)| format!("{} {}", tohex(&pk.into_bytes()), tohex(&sk.into_bytes())))
+                    }
+                    // the key OBJECT as a value: a clone, and an object overwritten in place with clone_from, must sign exactly
+                    // like the key they copy.  sign_copy <set> <sk-spec of the copied key> <sk-spec of the key held before> <script> <msg> <ctx> <mode>
+                    "sign_copy" => match (sk_of_spec(a[2]), sk_of_spec(a[3])) {
+                        (Ok(src), Ok(old)) => {
+                            let (msg, ctx) = (hex(a[5]), hex(a[6]));
+                            let mut slot = old;
+                            slot.clone_from(&src);
+                            let c2 = src.clone();
+                            let mut outs = Vec::new();
+                            for k in [&slot, &c2] {
+                                let mut rng = ScriptRng::new(a[4]);
+                                let r = match a[7] {
+                                    "pure" => k.try_sign_with_rng(&mut rng, &msg, &ctx),
+                                    p => k.try_hash_sign_with_rng(&mut rng, &msg, &ctx, &ph(p)),
+                                };
+                                outs.push(okerr(r, |s| tohex(&s)));
+                            }
+                            let pkc = slot.get_public_key().into_bytes();
+                            format!("{} | {} | {} | {}", outs[0], outs[1], tohex(&slot.into_bytes()), tohex(&pkc))
+                        }
+                        _ => "key err".to_string(),
+                    },
+                    // bulk sign -> verify under one key: messages LE64(i), rnd = LE64(i) || a7.. ; reports the first i whose honest
+                    // signature does not verify.  sigscan <set> <xi> <start> <count> <mode>
+                    "sigscan" => {
+                        let (pk, sk) = gen(a[2]);
+                        let (start, count) = (a[3].parse::<u64>().unwrap(), a[4].parse::<u64>().unwrap());
+                        let mut bad: Option<String> = None;
+                        for i in start..start + count {
+                            let msg = i.to_le_bytes();
+                            let mut rnd = [0xa7u8; 32];
+                            rnd[..8].copy_from_slice(&msg);
+                            let mut rng = ScriptRng { script: VecDeque::from(vec![Reply::Fill(rnd.to_vec())]) };
+                            let (sig, ok) = match a[5] {
+                                "pure" => match sk.try_sign_with_rng(&mut rng, &msg, b"sc") { Ok(s) => (s, true), Err(_) => ([0u8; SIG_LEN], false) },
+                                p => match sk.try_hash_sign_with_rng(&mut rng, &msg, b"sc", &ph(p)) { Ok(s) => (s, true), Err(_) => ([0u8; SIG_LEN], false) },
+                            };
+                            let v = ok && match a[5] { "pure" => pk.verify(&msg, &sig, b"sc"), p => pk.hash_verify(&msg, &sig, b"sc", &ph(p)) };
+                            if !v { bad = Some(format!("i={} sign_ok={}", i, ok)); break; }
+                        }
+                        match bad { None => format!("ok none {}", count), Some(b) => format!("ok fail {}", b) }
+                    }
+                    // a message of <len> bytes (all <fill>) built here - far too long for the line protocol - verified (pure mode)
+                    // under the all-zero public key with the all-zero signature: FIPS 204 puts no bound on the message length.
+                    // bigverify <set> <len> <fill-hex-byte>
+                    "bigverify" => {
+                        let len: usize = a[2].parse().unwrap();
+                        let fill = hex(a[3])[0];
+                        let msg = vec![fill; len];
+                        let pk = api::PublicKey::try_from_bytes([0u8; PK_LEN]).unwrap();
+                        let r = pk.verify(&msg, &[0u8; SIG_LEN], b"");
+                        format!("ok {}", s01(r))
+                    }
+                    // C16: a private key whose life ends inside into_bytes(self) (the only API that consumes a key by value) must be
+                    // wiped like a dropped one: the boxed key is consumed, then the caller's stack is searched for an image of it
+                    "consume_scan" => {
+                        #[inline(never)]
+                        fn consume(key: Box<api::PrivateKey>, hi: usize) -> (usize, usize) {
+                            let len = core::mem::size_of::<api::PrivateKey>();
+                            let mut image = vec![0u8; len];
+                            unsafe { core::ptr::copy_nonoverlapping(core::ptr::addr_of!(*key).cast::<u8>(), image.as_mut_ptr(), len) };
+                            let live = image.iter().filter(|&&b| b != 0).count();
+                            let skb = (*key).into_bytes();
+                            let r = best_residue(&image, hi);
+                            assert!(api::PrivateKey::try_from_bytes(skb).is_ok());
+                            (r, live)
+                        }
+                        #[inline(never)]
+                        fn make(xi: &str) -> Box<api::PrivateKey> { Box::new(gen(xi).1) }
+                        let anchor = 0u64;
+                        let hi = core::ptr::addr_of!(anchor) as usize & !7;
+                        let (r, live) = consume(make(a[2]), hi);
+                        format!("ok {} {}", r, live)
                     }
                     "os_sign" => match sk_of_spec(a[2]) {
                         Ok(sk) => {
